@@ -45,7 +45,7 @@ func TestC10(t *testing.T) {
 	defer r.Finish(t)
 	var targets []Target
 	targets = append(targets, ParrotTargets(true)...)
-	for i := 0; i < mon.Pick(80, 600); i++ {
+	for i := 0; i < mon.Pick(80, 2000); i++ {
 		targets = append(targets, RandomizedTarget(i))
 	}
 	for i, p := range AllParrots {
@@ -55,7 +55,7 @@ func TestC10(t *testing.T) {
 			}
 		}
 	}
-	for i := 0; i < mon.Pick(120, 1500); i++ {
+	for i := 0; i < mon.Pick(120, 5000); i++ {
 		targets = append(targets, CustomTarget(i))
 	}
 	type job struct {
